@@ -18,7 +18,7 @@ from ..gen import sheets as G
 MANIFEST = dict(
     text="Proof: Lean theorems validCert_sound / flows_equiv_of_cert (an accepted bisimulation certificate implies equal observation traces for EVERY infinite sequence of contact replies, field/group values, random draws and sub-flow/webhook/airtime outcomes, under every interpretation of the tests). The verified checker is run by the driver on every generated core sheet between the REAL compiler's output and the reference interpretation refFlow (the statement of C02 made executable in Lean; reference_flow_closed: for EVERY sheet it is a closed flow, so no reference path ends for a structural reason). Universal over sheets: proved for ALL sheets of the fragment CoreSheet.inFragment (every row type of a core sheet except insert_as_block: action rows left unconditionally or conditionally — the compiler's router node behind the action node, two compiled nodes for one reference node —, wait_for_response with or without timeout, split_by_value, split_by_group, split_random, start_new_flow / call_webhook / transfer_airtime, go_to / hard_exit / loose_exit, no_op rows — junctions entered from other rows and left either by one unconditional edge (the compiler creates NO node and re-connects the sources: node elision against the reference's empty node) or by conditional edges first, then unconditional ones (a router node on both sides; the other order is the known finding F-C02-b, kept outside with a kernel-checked witness that reproduces it), under the schedule conditions noopShape / noopSched / firstOk, which every sheet the harness calls noop_stable satisfies —, with any number of conditional or unconditional edges: chains, trees, joins, last-edge-wins defaults, tests in row order, No Response branches, buckets, fixed outcomes, explicit category names; rows standing for themselves — no given node identifier or node name —; under the single-meaning conditions edgeOk / distinctTests / sameVars / freshNames, each with a kernel-checked negative witness; of the no_op conditions the forced ones have witnesses, four shapes the proof's schedule does not cover are listed as not shown to be forced) with the Lean compiler model (tied to the real parser by the exact comparison of C01) in place of the real compiler — C02_fragment / compile_refines_reference: if the model compiles the sheet and the reference exists, the traces agree for every answer stream (lock-step simulation of the compiler machine and the reference's pass 1 — for no_op rows against a schedule of the edges in the order in which the compiler's lazy junctions let them take effect —; then a bisimulation up to node splitting and node elision between the index-resolved abstractions of the two flows, Flow.run_split); the two inputs of the theorem (CoreSheet.toEvent / toRRow of one parsed row) are cross-checked against what the harness sends on every explored sheet. Outside the fragment (C02_fragment_full visible) the claim is decided per explored sheet.",
     ref="§5 C02",
-    note="Trusts: Lean kernel; certificate SEARCH is untrusted (only the validated certificate counts); harness canonicaliser of actions (invented uuids dropped) and the row→action/operand reference table (harness/gen/sheets.py reference_row); real RowParser used to parse the CSV rows for both sides. Domain: WFcore ∧ NoopStable sheets (DESIGN §5 C02 notes); known finding F-C02-b outside it.",
+    note="Trusts: Lean kernel; certificate SEARCH is untrusted (only the validated certificate counts); harness canonicaliser of actions (invented uuids dropped) and the row→action/operand reference table (harness/gen/sheets.py reference_row); real RowParser used to parse the CSV rows for both sides. Domain: WFcore ∧ NoopStable sheets (DESIGN §5 C02 notes); known findings F-C02-b (no_op left unconditionally first), F-C02-d (entering a row merged by node name), F-C02-e (action row merged into a router node) outside it, each with a deterministic stream.",
     technique="Lean 4 proof of bisimulation-certificate soundness + verified checker run on real compiler output vs executable reference semantics",
 )
 
@@ -185,6 +185,53 @@ F_C02_B = [
 ]
 
 
+# F-C02-d: a go_to into a row that was merged into an existing node (node_name) enters the node at its first action
+F_C02_D = [
+    {"row_id": "a", "type": "send_message", "from": "start", "message_text": "first action", "node_name": "X"},
+    {"row_id": "b", "type": "send_message", "from": "a", "message_text": "second action", "node_name": "X"},
+    {"row_id": "w", "type": "wait_for_response", "from": "b"},
+    {"row_id": "", "type": "go_to", "from": "w", "condition": "again", "message_text": "b"},
+]
+
+# F-C02-e: an action row merged (node_name) into a ROUTER node: its action runs before the decision
+F_C02_E = [
+    {"row_id": "a", "type": "send_message", "from": "start", "message_text": "hello"},
+    {"row_id": "w", "type": "wait_for_response", "from": "a", "node_name": "X"},
+    {"row_id": "b", "type": "send_message", "from": "w", "node_name": "X", "message_text": "after the wait"},
+    {"row_id": "c", "type": "send_message", "from": "w", "condition": "yes", "message_text": "on yes"},
+]
+
+
+def _act_text(o):
+    """the text of an observed send_msg action, else None"""
+    if not isinstance(o, dict) or "act" not in o:
+        return None
+    try:
+        return json.loads(o["act"]).get("text")
+    except Exception:
+        return None
+
+
+def _known_stream(ck, rp, drv, fid, rows, what, pattern_holds):
+    """deterministic known-finding stream: the rows are the trigger; the finding is attributed only when the
+    discrepancy the REAL compiler shows is the recorded one — any other discrepancy is a violation"""
+    status, req, _ = evaluate(rp, rows, want_noop_stable=False)
+    if status == "ok":
+        a = drv.results([req])[0]
+        if "__error__" in a or not a.get("wf"):
+            raise core.Infra(f"{fid} stream: driver problem: {json.dumps(a)[:400]}")
+        if not a.get("equiv"):
+            if pattern_holds(a):
+                ck.known(fid, what, {"csv": rows_to_csv(G.HEADERS, rows), "path": a.get("path"),
+                                     "reference_then": a.get("a"), "compiled_then": a.get("b")})
+            else:
+                ck.violation(f"{fid} trigger: the compiled flow differs from the meaning of the rows in ANOTHER way than the recorded finding",
+                             {"csv": rows_to_csv(G.HEADERS, rows), "rows": rows, "distinguishing_choice_sequence": a.get("path"),
+                              "reference_trace": a.get("traceA"), "compiled_trace": a.get("traceB"),
+                              "reference_then": a.get("a"), "compiled_then": a.get("b")})
+    ck.count("known_finding_stream", 1)
+
+
 def run(ck: core.Check):
     ck.lean = core.lean_step("C02", thorough=(ck.tier == "thorough"))
     if not core.DRIVER_BIN.exists():
@@ -215,6 +262,16 @@ def run(ck: core.Check):
             ck.known("F-C02-b", "no_op left first unconditionally, then conditionally: the unconditional target is lost (opposite row order keeps it)",
                      {"csv": rows_to_csv(G.HEADERS, F_C02_B), "path": a.get("path")})
     ck.count("known_finding_stream", 1)
+    # F-C02-d: after "again" the rows continue at the merged row's own action, the compiled flow replays the first one
+    _known_stream(ck, rp, drv, "F-C02-d", F_C02_D,
+                  "a go_to (or edge) into a row merged by node name enters the merged node at its first action: earlier actions are replayed",
+                  lambda a: a.get("path") == [0, 0, 0] and _act_text(a.get("a")) == "second action"
+                  and _act_text(a.get("b")) == "first action")
+    # F-C02-e: the rows wait after "hello", the compiled flow performs the merged action first
+    _known_stream(ck, rp, drv, "F-C02-e", F_C02_E,
+                  "an action row merged by node name into a router node: its action runs before the wait/split instead of after it",
+                  lambda a: a.get("path") == [0] and isinstance(a.get("a"), dict) and "ask" in a["a"]
+                  and _act_text(a.get("b")) == "after the wait")
 
     n_total = 1200 if quick else 24000
     maxrows = 18 if quick else 45
